@@ -9,6 +9,7 @@ import (
 	"errors"
 	"fmt"
 	"strings"
+	"time"
 
 	"github.com/jamf/regatta/regattapb"
 	"github.com/jamf/regatta/regattaserver"
@@ -24,6 +25,7 @@ import (
 	"google.golang.org/grpc"
 
 	. "verif/harness/cmdx"
+	"verif/harness/engx"
 	"verif/harness/evid"
 	"verif/harness/par"
 )
@@ -83,19 +85,24 @@ var errCompacted = errors.New("entry compacted")
 var errUnavailable = errors.New("entry unavailable")
 
 func (l *fakeLog) Entries(low, high, maxSize uint64) ([]raftpb.Entry, error) {
+	return modelEntries(func(i uint64) raftpb.Entry { return mkEntry(i, l.types[i-1]) }, l.last(), l.marker, low, high, maxSize)
+}
+
+// modelEntries is the model of dragonboat's LogReader.Entries over any entry source.
+func modelEntries(get func(i uint64) raftpb.Entry, last, marker, low, high, maxSize uint64) ([]raftpb.Entry, error) {
 	if low > high {
 		return nil, fmt.Errorf("high (%d) < low (%d)", high, low)
 	}
-	if low <= l.marker {
+	if low <= marker {
 		return nil, errCompacted
 	}
-	if high > l.last()+1 {
+	if high > last+1 {
 		return nil, errUnavailable
 	}
 	var out []raftpb.Entry
 	size := uint64(0)
 	for i := low; i < high; i++ {
-		e := mkEntry(i, l.types[i-1])
+		e := get(i)
 		size += uint64(e.SizeUpperLimit())
 		out = append(out, e)
 		if size > maxSize {
@@ -505,11 +512,12 @@ func Run(r *evid.Run) {
 	for _, c := range caps {
 		explore(r, c, maxN, depth)
 	}
+	runConformance(r)
 	ex := []event{{Kind: "append", T: tLarge}, {Kind: "append", T: tSmall}, {Kind: "apply"}, {Kind: "apply"}, {Kind: "query", First: 1, Max: 1 << 30}, {Kind: "replicate", First: 1, Max: 1}}
 	r.Sample(Case{Capacity: 2, Path: ex, Desc: desc(ex)})
 	r.Assume("the end of a queried range is always applied+1 at call time (as the server computes it) and the applied index only grows")
 	r.Assume("log compaction clears the shard cache atomically (the engine does it from the LogCompacted event); a stale cache between compaction and the event is not modelled")
-	r.Assume("fake log = model of dragonboat LogReader.Entries/GetRange; conformance against a real NodeHost is part of the engine-based checks")
+	r.Assume("fake log = model of dragonboat LogReader.Entries/GetRange; conformance: on real logs of 1..4 (thorough 6) client entries, before and after real snapshot+compaction keeping 0/1/2 entries, every (low, high, maxSize) query is asked of the model and of dragonboat's LogReader and the answers compared (traces_validated_against_impl adds these queries to the BFS transitions, which all run the real readers/server)")
 }
 
 func Replay(raw json.RawMessage) (string, bool) {
@@ -531,4 +539,100 @@ func Replay(raw json.RawMessage) (string, bool) {
 		}
 	}
 	return sb.String(), ok
+}
+
+// runConformance compares the model of the Raft log reader with dragonboat's real LogReader on real
+// logs: for logs of n = 1..N client entries (plus Raft's own entries), before and after a real
+// snapshot + log compaction, every (low, high, maxSize) is asked of both.
+func runConformance(r *evid.Run) {
+	eng, err := engx.Start(engx.Opts{})
+	if err != nil {
+		r.Inconcl.Add(1)
+		r.Extra("conformance", "engine did not start: "+err.Error())
+		return
+	}
+	defer eng.Close()
+	maxN := 4
+	if r.Thorough() {
+		maxN = 6
+	}
+	compared := int64(0)
+	for n := 1; n <= maxN; n++ {
+		for _, keep := range []int{-1, 0, 1, 2} { // -1: no compaction
+			name := fmt.Sprintf("lc%d-%d", n, keep+1)
+			if _, err := eng.CreateTable(name); err != nil {
+				r.Inconcl.Add(1)
+				continue
+			}
+			if eng.WaitTable(name, 20*time.Second) != nil {
+				r.Inconcl.Add(1)
+				continue
+			}
+			at, _ := eng.GetTable(name)
+			ctx, cancel := context.WithTimeout(context.Background(), 30*time.Second)
+			for i := 0; i < n; i++ {
+				val := "v"
+				if i%2 == 1 {
+					val = strings.Repeat("L", 400)
+				}
+				if _, err := eng.Put(ctx, &regattapb.PutRequest{Table: []byte(name), Key: []byte(fmt.Sprintf("k%d", i)), Value: []byte(val)}); err != nil {
+					r.Inconcl.Add(1)
+				}
+			}
+			lr, err := eng.NodeHost.GetLogReader(at.ClusterID)
+			if err != nil {
+				cancel()
+				r.Inconcl.Add(1)
+				continue
+			}
+			first, last := lr.GetRange()
+			all, err := lr.Entries(first, last+1, 1<<30)
+			if err != nil || uint64(len(all)) != last-first+1 {
+				cancel()
+				r.Inconcl.Add(1)
+				continue
+			}
+			if keep >= 0 {
+				if _, err := eng.NodeHost.SyncRequestSnapshot(ctx, at.ClusterID, dragonboat.SnapshotOption{OverrideCompactionOverhead: true, CompactionOverhead: uint64(keep)}); err != nil {
+					cancel()
+					r.Inconcl.Add(1)
+					continue
+				}
+				deadline := time.Now().Add(10 * time.Second)
+				for time.Now().Before(deadline) {
+					f2, _ := lr.GetRange()
+					if f2 > first {
+						break
+					}
+					time.Sleep(2 * time.Millisecond)
+				}
+			}
+			cancel()
+			f2, l2 := lr.GetRange()
+			marker := f2 - 1
+			get := func(i uint64) raftpb.Entry { return all[i-first] }
+			if mf, ml := marker+1, last; mf != f2 || ml != l2 {
+				r.Violate("conformance/GetRange-differs", fmt.Sprintf("model (%d,%d) real (%d,%d)", mf, ml, f2, l2), nil)
+			}
+			one := uint64(all[len(all)-1].SizeUpperLimit())
+			for low := uint64(1); low <= last+2; low++ {
+				for high := low; high <= last+2; high++ {
+					for _, max := range []uint64{0, 1, one, 2*one + 1, 1 << 30} {
+						if low < first {
+							continue // below what the model knows (entries compacted before this harness looked)
+						}
+						me, merr := modelEntries(get, last, marker, low, high, max)
+						re, rerr := lr.Entries(low, high, max)
+						compared++
+						if (merr == nil) != (rerr == nil) || entriesStr(me) != entriesStr(re) {
+							r.Violate("conformance/log-reader-model-differs-from-dragonboat", fmt.Sprintf("log [%d,%d] marker %d: Entries(%d,%d,%d): model %s err %v, real %s err %v", first, last, marker, low, high, max, entriesStr(me), merr, entriesStr(re), rerr), map[string]any{"kind": "conformance", "n": n, "keep": keep})
+						}
+					}
+				}
+			}
+			_ = eng.DeleteTable(name)
+		}
+	}
+	r.Validated.Add(compared)
+	r.Extra("conformance_queries_compared_with_real_log_reader", compared)
 }
